@@ -29,10 +29,13 @@ def file_of(tk):
     return tk.replace("#", "_") + ".py"
 PLURAL = {"argparse_function": "argparse_functions", "class": "classes", "function": "functions"}
 PRE_STATES = ["missing", "empty", "absent", "stale", "agreeing"]
+# further pre-states: "stale-tail" (class only: the agreeing definition minus its last statement, or plus one more
+# attribute: the docstring is already right), "hardlink" (the target is a hard link of the truth file)
+EXTRA_PRE_STATES = ["stale-tail", "hardlink"]
 
 
 # ------------------------------------------------------------------ IRs in the conversion-safe family
-def safe_ir(rng, nparams=None, with_returns=False):
+def safe_ir(rng, nparams=None, with_returns=False, wide=None):
     """typed scalar / Optional / Literal parameters with explicit type-consistent defaults, clean prose,
     no return entry: every pair of kinds converts these without loss on the unchanged tree"""
     params = OrderedDict()
@@ -52,6 +55,11 @@ def safe_ir(rng, nparams=None, with_returns=False):
         elif r < 0.35 and t == "str":
             typ = "Literal['mnist', 'adam', 'x y', 'relu']"
         params[n] = {"doc": G.clean_prose(rng), "typ": typ, "default": v}
+    if wide:
+        # a last parameter whose documentation line ends near the formatting widths (100 for doctrans' own wrapping,
+        # 119 for black in emit.file): one long token (a path) of the drawn width
+        n = "wide_%d" % wide
+        params[n] = {"doc": "/" + "/".join("seg%02d" % i for i in range(40))[:max(1, wide - 1)], "typ": "str", "default": "relu"}
     ret = None
     if with_returns:
         ret = OrderedDict((("return_type", {"doc": G.clean_prose(rng), "typ": rng.choice(["int", "str"]),
@@ -152,12 +160,19 @@ def assemble_target(rng, kind, name, def_src, sur, position, trailing_newline, c
 
 
 # ------------------------------------------------------------------ scenarios
+STALE_TMP = ["import os\n\n\ndef leftover(a,", "X = 1\n", "class Half(object):\n    pass\n", ""]
 ENDINGS = ["\n", "\n", "\n", "", " ", "\t", "\n    ", "  # trailing comment ", "\n\n"]
 BODIES = [
     ["print({p0})"],
     ["total = {p0}", "print(total, {p1})"],
     ["for _ in range(2):\n    print({p0})", "helper_value = len(str({p1}))"],
     ["if {p0}:\n    print({p1})\nelse:\n    print('none')"],
+    # bodies that end in a return statement (literal return values are left out: parse.function turns them into
+    # non-text return defaults on which emit.argparse_function / emit.function raise - the return-entry findings of
+    # C03/C05/C16)
+    ["print({p0})", "return"],
+    ["if {p0}:\n    return", "print({p1})", "return"],
+    ["total = {p0}", "print(total)", "return"],
 ]
 
 
@@ -175,7 +190,11 @@ def gen_scenario(rng, via="api", runs=2, allow_known=True):
         if k == truth or k not in given:
             continue
         pre = rng.choice(PRE_STATES)
-        targets[k] = {"pre": pre, "n_sur": rng.randint(0, 4), "position": rng.choice(["before", "between", "after"]),
+        if k == "class" and rng.random() < 0.15:
+            pre = "stale-tail"
+        elif rng.random() < 0.05:
+            pre = "hardlink"
+        targets[k] = {"pre": pre, "stale_tmp": rng.random() < 0.08, "n_sur": rng.randint(0, 4), "position": rng.choice(["before", "between", "after"]),
                       "trailing_newline": True, "ending": rng.choice(ENDINGS), "sur_seed": rng.randint(0, 10 ** 9),
                       "members": rng.randint(0, 2), "module_doc": rng.random() < 0.25,
                       "same_named_top": rng.random() < 0.5}
@@ -189,14 +208,17 @@ def gen_scenario(rng, via="api", runs=2, allow_known=True):
     return {"truth": truth, "given": sorted(given), "names": names, "targets": targets, "ir_seed": rng.randint(0, 10 ** 9),
             "via": via, "runs": runs, "truth_sur": rng.randint(0, 2), "truth_sur_seed": rng.randint(0, 10 ** 9),
             "symlink": rng.random() < 0.2, "tilde": rng.random() < 0.15, "body": body,
-            "with_returns": truth in ("argparse_function", "class") and rng.random() < 0.5}
+            "with_returns": truth in ("argparse_function", "class") and rng.random() < 0.5,
+            "wide": rng.randint(74, 110) if rng.random() < 0.45 else None,
+            # after the regular runs: the truth is edited (its modification time kept) and sync runs once more
+            "truth_edit": rng.random() < 0.25}
 
 
 def build_project(scn, root):
     """writes the files; returns dict(paths, gold_ir, expected defs)"""
     import random
     rng = random.Random(scn["ir_seed"])
-    ir = safe_ir(rng, with_returns=bool(scn.get("with_returns")))
+    ir = safe_ir(rng, with_returns=bool(scn.get("with_returns")), wide=scn.get("wide"))
     stale = mutate_ir(rng, ir)
     paths = {k: os.path.join(root, k + ".py") for k in KINDS}
     for tk in scn["targets"]:
@@ -205,28 +227,7 @@ def build_project(scn, root):
     ftype = "self" if "." in names["function"] else "static"
     # truth file
     tname = names[truth].split(".")[-1]
-    tsrc = def_source(truth, ir, tname, ftype)
-    if scn.get("body") is not None and truth == "function":
-        pn = list(ir["params"]) or ["None"]
-        lines = [l.format(p0=pn[0], p1=pn[-1]) for l in BODIES[scn["body"]]]
-        tsrc = tsrc + "\n" + "\n".join(indent_block(l) for l in lines)
-    trng = random.Random(scn["truth_sur_seed"])
-    ttext = assemble_target(trng, truth, names[truth], tsrc, surroundings(trng, scn["truth_sur"]), "after", True,
-                            class_members=[])
-    with open(paths[truth], "w") as f:
-        f.write(ttext)
-    # the truth as doctrans reads it
-    m = impl()
-    tree = m.source_transformer.ast_parse(ttext, filename=paths[truth])
-    gold_node = m.ast_utils.find_in_ast(names[truth].split("."), tree)
-    gold_ir = None
-    try:
-        gold_ir = {"class": lambda n: m.parse.class_(n, class_name=tname),
-                   "function": lambda n: m.parse.function(n, function_name=tname, function_type=m.ast_utils.get_function_type(n)),
-                   "argparse_function": lambda n: m.parse.argparse_ast(n, function_name=tname,
-                                                                      function_type=m.ast_utils.get_function_type(n))}[truth](gold_node)
-    except Exception:  # noqa
-        gold_ir = None
+    gold_ir = write_truth(scn, ir, paths[truth], ftype)
     for tk, t in scn["targets"].items():
         k = kind_of(tk)
         srng = random.Random(t["sur_seed"])
@@ -236,7 +237,14 @@ def build_project(scn, root):
         name = names[k]
         short = name.split(".")[-1]
         pre = t["pre"]
+        if t.get("stale_tmp"):
+            # left behind by an earlier run that was killed between writing and renaming
+            with open(paths[tk] + ".doctrans-tmp", "w") as f:
+                f.write(srng.choice(STALE_TMP))
         if pre == "missing":
+            continue
+        if pre == "hardlink":
+            os.link(paths[truth], paths[tk])
             continue
         if pre == "empty":
             text = ""
@@ -245,6 +253,14 @@ def build_project(scn, root):
                 dsrc = None
             elif pre == "stale":
                 dsrc = def_source(k, stale, short, ftype if k == "function" else "static")
+            elif pre == "stale-tail" and k == "class":
+                node = emit_def(k, gold_ir if gold_ir is not None else ir, short)
+                first = 1 if ast.get_docstring(node) is not None else 0
+                if len(node.body) - first >= 2 and srng.random() < 0.5:
+                    node.body.pop()
+                else:
+                    node.body.append(ast.parse("extra_attribute: int = 7").body[0])
+                dsrc = ast.unparse(node)
             else:
                 dsrc = def_source(k, gold_ir if gold_ir is not None else ir, short, ftype if k == "function" else "static")
             text = assemble_target(srng, k, name, dsrc, sur, t["position"], t["trailing_newline"], members,
@@ -253,6 +269,37 @@ def build_project(scn, root):
         with open(paths[tk], "w") as f:
             f.write(text)
     return {"paths": paths, "ir": ir, "stale": stale, "gold_ir": gold_ir, "ftype": ftype}
+
+
+def write_truth(scn, ir, path, ftype, keep_mtime=False):
+    """(re)writes the truth file for interface `ir`; returns the truth as doctrans reads it (None if it cannot)"""
+    import random
+    truth, names = scn["truth"], scn["names"]
+    tname = names[truth].split(".")[-1]
+    tsrc = def_source(truth, ir, tname, ftype)
+    if scn.get("body") is not None and truth == "function":
+        pn = list(ir["params"]) or ["None"]
+        lines = [l.format(p0=pn[0], p1=pn[-1]) for l in BODIES[scn["body"]]]
+        tsrc = tsrc + "\n" + "\n".join(indent_block(l) for l in lines)
+    trng = random.Random(scn["truth_sur_seed"])
+    ttext = assemble_target(trng, truth, names[truth], tsrc, surroundings(trng, scn["truth_sur"]), "after", True,
+                            class_members=[])
+    st = os.stat(path) if keep_mtime and os.path.exists(path) else None
+    with open(path, "w") as f:
+        f.write(ttext)
+    if st is not None:
+        os.utime(path, ns=(st.st_atime_ns, st.st_mtime_ns))
+    # the truth as doctrans reads it
+    m = impl()
+    tree = m.source_transformer.ast_parse(ttext, filename=path)
+    gold_node = m.ast_utils.find_in_ast(names[truth].split("."), tree)
+    try:
+        return {"class": lambda n: m.parse.class_(n, class_name=tname),
+                "function": lambda n: m.parse.function(n, function_name=tname, function_type=m.ast_utils.get_function_type(n)),
+                "argparse_function": lambda n: m.parse.argparse_ast(n, function_name=tname,
+                                                                   function_type=m.ast_utils.get_function_type(n))}[truth](gold_node)
+    except Exception:  # noqa
+        return None
 
 
 def snapshot(root):
@@ -325,7 +372,11 @@ class Recorder:
             if os.path.isfile(real):
                 with open(real) as f:
                     old = f.read()
-            rec.cur = {"file": real, "search": list(search), "kind": {"argparse_function": "argparse_function", "class_": "class",
+            tmp_old = None
+            if os.path.isfile(real + ".doctrans-tmp"):
+                with open(real + ".doctrans-tmp") as f:
+                    tmp_old = f.read()
+            rec.cur = {"file": real, "tmp_old": tmp_old, "search": list(search), "kind": {"argparse_function": "argparse_function", "class_": "class",
                                                                         "function": "function"}[emit_func.__name__],
                        "old": old, "emit": None, "parse": None, "found": False, "type_ok": True, "cmp": False, "replaced": False,
                        "render": None, "write_mode": None, "result": None, "stdout": None}
@@ -359,6 +410,10 @@ class Recorder:
                         new = f.read()
                 rec.cur["new"] = new
                 rec.cur["tmp_left"] = os.path.exists(real + ".doctrans-tmp")
+                rec.cur["tmp_new"] = None
+                if rec.cur["tmp_left"]:
+                    with open(real + ".doctrans-tmp") as f:
+                        rec.cur["tmp_new"] = f.read()
                 rec.calls.append(rec.cur)
                 rec.cur = None
 
@@ -493,7 +548,22 @@ def run_scenario(scn, record=True):
                     rec_calls.append(rec.calls)
             runs.append(run)
             snaps.append(snapshot(root))
-        return {"scn": scn, "proj": {k: v for k, v in proj.items() if k != "paths"}, "paths": {k: os.path.basename(v) for k, v in paths.items()},
+        edit = None
+        if scn.get("truth_edit"):
+            # the truth changes (same path, same modification time), then sync runs once more in the same process
+            gold2 = write_truth(scn, proj["stale"], proj["paths"][scn["truth"]], proj["ftype"], keep_mtime=True)
+            before = snapshot(root)
+            if scn["via"] == "cli":
+                r = run_cli(cli_argv(scn, paths), extra_env={"HOME": root})
+                run = {"exception": None if r["rc"] == 0 else ("exit-%d" % r["rc"]), "stdout": r["stdout"], "stderr": r["stderr"][-600:],
+                       "result": None}
+                calls = None
+            else:
+                rec = Recorder() if record else None
+                run = run_api(scn, paths, rec, home=root)
+                calls = rec.calls if rec is not None else None
+            edit = {"gold_ir": gold2, "run": run, "before": before, "after": snapshot(root), "calls": calls}
+        return {"scn": scn, "edit": edit, "proj": {k: v for k, v in proj.items() if k != "paths"}, "paths": {k: os.path.basename(v) for k, v in paths.items()},
                 "root": root, "snaps": snaps, "runs": runs, "calls": rec_calls}
     finally:
         shutil.rmtree(root, ignore_errors=True)
@@ -524,7 +594,8 @@ class Fault:
             return Sym("fail-read-old")
         if op[0] == "open-w" and op[1] == "tmp":
             return Sym("fail-open-tmp")
-        if op[0] == "write" and op[1] == "tmp":
+        if op[0] in ("write", "close") and op[1] == "tmp":
+            # an error at close leaves the same state as one inside write: a prefix in the temporary file
             return [Sym("fail-write-tmp"), self.k]
         if op[0] == "replace":
             return Sym("fail-replace")
@@ -552,15 +623,38 @@ class Fault:
             return "tmp" if p == tmp else "target" if p == filename else "other"
 
         class W:
+            """a fully buffered text file: write() only queues; the characters reach the file when it is closed
+            (as with Python's own buffering for small outputs), so an I/O error can also surface at close"""
+
             def __init__(self, f, p):
-                self.f, self.p = f, p
+                self.f, self.p, self.buf, self.closed_ = f, p, [], False
 
             def write(self, s):
                 if fault._op(("write", which(self.p), len(s))):
-                    self.f.write(s[:fault.k])
+                    self.f.write("".join(self.buf) + s[:fault.k])
+                    self.buf = []
                     self.f.flush()
                     raise OSError("injected: write failed after %d characters" % fault.k)
-                return self.f.write(s)
+                self.buf.append(s)
+                return len(s)
+
+            def flush(self):
+                self.f.write("".join(self.buf))
+                self.buf = []
+                self.f.flush()
+
+            def close(self):
+                if self.closed_:
+                    return
+                self.closed_ = True
+                pending = "".join(self.buf)
+                self.buf = []
+                if fault._op(("close", which(self.p), len(pending))):
+                    self.f.write(pending[:fault.k])
+                    self.f.close()
+                    raise OSError("injected: flush at close failed after %d characters" % fault.k)
+                self.f.write(pending)
+                self.f.close()
 
             def read(self, *a):
                 return self.f.read(*a)
@@ -569,7 +663,7 @@ class Fault:
                 return self
 
             def __exit__(self, *a):
-                self.f.close()
+                self.close()
                 return False
 
             def __getattr__(self, name):
@@ -607,7 +701,7 @@ def fault_points(ops, rng=None):
     """(op_index, k) pairs covering every operation of a logged emit.file call; writes get several k"""
     pts = []
     for i, op in enumerate(ops):
-        if op[0] == "write":
+        if op[0] in ("write", "close"):
             n = op[2]
             for k in sorted({0, 1, max(1, n // 2), max(1, n - 1)}):
                 pts.append((i, k))
